@@ -196,7 +196,11 @@ PROPS = {
     },
     "C09": {
         "module": "Arca.Props.C09", "theorems": ['Arca.Props.C09.deploy_wait_is_sound', 'Arca.Props.C09.deploy_wait_is_sound_counterexample', 'Arca.Props.C09.deploy_wait_is_sound_partial', 'Arca.Props.C09.detector_sound_counterexample_enabling', 'Arca.Props.C09.detector_sound_counterexample_enabling_provided_while_parked', 'Arca.Props.C09.detector_sound_counterexample_starting', 'Arca.Props.C09.detector_sound_counterexample_starting_provided_while_parked', 'Arca.Props.C09.detector_sound_counterexample_completion_in_flight', 'Arca.Props.C09.detector_sound_counterexample', 'Arca.Props.C09.detector_sound_partial', 'Arca.Props.C09.active_step_reports_activity', 'Arca.Props.C09.windows_are_not_quiescent', 'Arca.Props.C09.detector_needs_quiescence_for_three_polls', 'Arca.Props.C09.one_active_poll_stops_detector', 'Arca.Props.C09.short_window_cannot_trigger'], "instrumented": True,
-        "pins": ["workflow_workflow_loopState_checkForDeadlocks", "step_plugin_provider_runningStep_provideDeployInput",
+        "pins": ["workflow_workflow_loopState_checkForDeadlocks", "workflow_workflow_loopState_countStates",
+                 "workflow_workflow_loopState_onStageComplete", "step_plugin_provider_runningStep_State",
+                 "step_plugin_provider_runningStep_CurrentStage", "step_plugin_provider_runningStep_currentStageInputAvailable",
+                 "step_foreach_provider_runningStep_State", "step_foreach_provider_runningStep_CurrentStage",
+                 "step_plugin_provider_runningStep_provideDeployInput",
                  "step_plugin_provider_runningStep_provideEnablingInput", "step_plugin_provider_runningStep_provideStartingInput",
                  "step_plugin_provider_runningStep_deployStage", "step_plugin_provider_runningStep_enableStage",
                  "step_plugin_provider_runningStep_startStage", "step_plugin_provider_runningStep_transitionStageWithOutput",
